@@ -58,6 +58,8 @@ type World struct {
 	constMaps            map[*ssa.Global]*constMapInfo
 	cursorStores         map[string][2]int
 	posSum               []resolvedArg
+	openers              []commentForm
+	openersDone          bool
 	parenF               *ssa.Function
 	parenExprIdx         int
 	parenDone            bool
